@@ -215,37 +215,43 @@ def runOpsBasic (w : World) (self : Nat) : List Op → World × List Ev × Statu
 
 
 /-- operations that the scripted move_or_destruct() hooks perform (no destruct - restrict_destruct would refuse it -,
-    no error, no inventory change) -/
+    no inventory change; an uncaught error leaves destruct_object right there) -/
 def hookAllowed : Op → Bool
-  | .shb _ _ | .q _ | .clone _ _ _ | .flag | .hbs => true
+  | .shb _ _ | .q _ | .clone _ _ _ | .flag | .hbs | .err | .cerr => true
   | _ => false
 
 /-- one iteration of `while (ob->contains)`: apply move_or_destruct() in the item (its script may touch any heart beat,
-    including the dying carrier's), then `if (otmp == ob->contains) destruct_object (otmp)` -/
-def hookStep (carrier : Nat) (acc : World × List Ev) (i : Nat) : World × List Ev :=
-  if !acc.1.alive i then acc
+    including the dying carrier's), then `if (otmp == ob->contains) destruct_object (otmp)`.  "An error here will not
+    leave destruct() in an inconsistent stage": it propagates to the caller of destruct_object; the carrier and the
+    remaining items stay as they are (status `.err`, later items are not visited) -/
+def hookStep (carrier : Nat) (acc : World × List Ev × Status) (i : Nat) : World × List Ev × Status :=
+  if acc.2.2 != .ok then acc
+  else if !acc.1.alive i then acc
   else
     match runOpsBasic acc.1 i ((acc.1.hooks i).filter hookAllowed) with
+    | (w1, e1, .err) => (w1, acc.2.1 ++ .hook i carrier :: e1, .err)
     | (w1, e1, _) =>
-      if w1.alive i then (destructLeaf w1 i, acc.2 ++ .hook i carrier :: e1 ++ [.hookEnd i])
-      else (w1, acc.2 ++ .hook i carrier :: e1 ++ [.hookGone i])
+      if w1.alive i then (destructLeaf w1 i, acc.2.1 ++ .hook i carrier :: e1 ++ [.hookEnd i], .ok)
+      else (w1, acc.2.1 ++ .hook i carrier :: e1 ++ [.hookGone i], .ok)
 
-def hooksPhase (w : World) (t : Nat) : World × List Ev := (itemsOf w t).foldl (hookStep t) (w, [])
+def hooksPhase (w : World) (t : Nat) : World × List Ev × Status := (itemsOf w t).foldl (hookStep t) (w, [], .ok)
 
-/-- one statement group of destruct_object; the Bool says "still going": the inventory loop returns from
-    destruct_object when a hook left the object destructed (`if (ob->flags & O_DESTRUCTED) return;`) -/
-def fullPhase (t : Nat) (acc : World × List Ev × Bool) : Nat → World × List Ev × Bool
+/-- one statement group of destruct_object; the status says `.ok` = still going, `.stop` = the inventory loop returned
+    from destruct_object because a hook left the object destructed (`if (ob->flags & O_DESTRUCTED) return;`),
+    `.err` = a hook raised an error -/
+def fullPhase (t : Nat) (acc : World × List Ev × Status) : Nat → World × List Ev × Status
   | 0 =>
-    if acc.2.2 then
+    if acc.2.2 = .ok then
       match hooksPhase acc.1 t with
-      | (w1, e1) => (w1, acc.2.1 ++ e1, w1.alive t)
+      | (w1, e1, .err) => (w1, acc.2.1 ++ e1, .err)
+      | (w1, e1, _) => (w1, acc.2.1 ++ e1, if w1.alive t then .ok else .stop)
     else acc
-  | ph => if acc.2.2 then (leafPhase t acc.1 ph, acc.2.1, true) else acc
+  | ph => if acc.2.2 = .ok then (leafPhase t acc.1 ph, acc.2.1, .ok) else acc
 
 /-- src/simulate.c destruct_object: inventory hooks, heart-beat removal and the O_DESTRUCTED store in the order of
-    the source; (world, events, ran to the end) -/
-def destructFull (w : World) (t : Nat) : World × List Ev × Bool :=
-  NV.Gen.C11.destructOrder.foldl (fullPhase t) (w, [], true)
+    the source; (world, events, ran to the end / returned early / error) -/
+def destructFull (w : World) (t : Nat) : World × List Ev × Status :=
+  NV.Gen.C11.destructOrder.foldl (fullPhase t) (w, [], .ok)
 
 /-- one operation executed by the live object `self` -/
 def stepOp (w : World) (self : Nat) (op : Op) : World × List Ev × Status :=
@@ -254,8 +260,9 @@ def stepOp (w : World) (self : Nat) (op : Op) : World × List Ev × Status :=
     if !w.alive t || t < 2 then (w, [.destNone self t], .ok)
     else
       match destructFull w t with
-      | (w', evs, true) => (w', evs ++ [.dest self t], if w'.alive self then .ok else .stop)
-      | (w', evs, false) => (w', evs ++ [.destGone self t], if w'.alive self then .ok else .stop)
+      | (w', evs, .ok) => (w', evs ++ [.dest self t], if w'.alive self then .ok else .stop)
+      | (w', evs, .stop) => (w', evs ++ [.destGone self t], if w'.alive self then .ok else .stop)
+      | (w', evs, .err) => (w', evs, .err)
   | op => stepOpBasic w self op
 
 /-- run a script; stops at the first error or when the object is destructed (by itself, or as an inventory item
